@@ -10,9 +10,10 @@
    statements squeezed into one empty statement as the formatter squeezes them (the stated
    normalisation; comments are outside the fragment because Parser.v's trees do not carry them).
    _partial — fragment: the statements of [sok] (declarations, assignment to a variable, calls,
-   while, for, if / else if / else, break / return inside them), no func, no on, no a[i] = v;
-   lexical hypothesis, decidable, not yet proved from the fragment: no formatted token is ILLEGAL
-   or the keyword func (the pre-pass scans the raw token list for `func`). *)
+   while, for, if / else if / else, break / return inside them), no func, no on, no a[i] = v.
+   No lexical hypothesis: that no formatted token is ILLEGAL or the keyword func (the pre-pass scans
+   the raw token list for `func`) is proved from the fragment (FormatParsePlainProofs.v; the fragment's
+   map keys exclude the text func, which parser.Parse cannot accept as a key for the same reason). *)
 From Coq Require Import List String NArith ZArith Bool Arith.
 From EvyV Require Import Base FmtAst Format Pratt Parser ParserRules ParserScope ParserCursor FormatParse FormatParseListProofs
   FormatParseStmtProofs FormatParseBlockProofs FormatParseProgProofs FormatParseAcceptProofs.
@@ -25,7 +26,6 @@ Theorem C06_roundtrip_program_partial :
   forall (fixed : fixes) (p : list fstmt) (Gout : ctx) (poss : list position) (eof : position),
   p <> [] ->
   poks B (builtin_table B) (G0 B) false p Gout -> frame_used Gout ->
-  Forall (fun t => ttype t <> T_ILLEGAL /\ ttype t <> T_FUNC) (toks_of_pieces (fmt_prog fixed p)) ->
   List.length poss = List.length (toks_of_pieces (fmt_prog fixed p)) ->
   parse B (combine (toks_of_pieces (fmt_prog fixed p)) poss) eof = Accept (body_trees false p).
 Proof. exact program_roundtrip. Qed.
@@ -38,7 +38,7 @@ Print Assumptions C06_roundtrip_program_partial.
    checker passes: every declare / visibility / every-variable-used condition of [sok] and [poks],
    the contexts threaded through blocks and else-if chains) and accept_structure (break / return
    placement, no dead code; no top-level statement always terminates).
-   What remains a hypothesis besides the lexical one is per expression, [eokb]: names are identifiers,
+   What remains a hypothesis is per expression, [eokb]: names are identifiers,
    the statement forms are those of the fragment (no comments, no func / on, targets are
    variables), blocks are not empty, a called name is in the function table with a matching argument
    count, and every expression is in the round-trip fragment of C06_roundtrip.v ([top_ok] /
@@ -51,7 +51,6 @@ Theorem C06_roundtrip_accepted_program_partial :
   forall (fixed : fixes) (p : list fstmt) (raw : list (token * position)) (eof0 : position) (poss : list position) (eof : position),
   parse B raw eof0 = Accept (body_trees false p) -> fn_table B raw = builtin_table B ->
   p <> [] -> eokb B (builtin_table B) (G0 B) p ->
-  Forall (fun t => ttype t <> T_ILLEGAL /\ ttype t <> T_FUNC) (toks_of_pieces (fmt_prog fixed p)) ->
   List.length poss = List.length (toks_of_pieces (fmt_prog fixed p)) ->
   parse B (combine (toks_of_pieces (fmt_prog fixed p)) poss) eof = Accept (body_trees false p).
 Proof. exact program_roundtrip_accepted. Qed.
